@@ -415,6 +415,13 @@ let c07 lineno (f : string array) =
   | "O" ->
     let ai = arrow_index f in
     let o = parse_hop f and ob = parse_obs f (ai + 1) in
+    (* the probes after a crash point have been checked against {before, after} (the property) and
+       against the crash model's prediction; the history continues from the predicted state, which
+       is the one the store is in *)
+    (match !c15_pred, o with
+     | Some _, (M.HGet _ | M.HHead _ | M.HList _ | M.HListBuckets | M.HHeadBucket _) -> ()
+     | Some p, _ -> c07_cands := [p]
+     | None, _ -> ());
     let stepped = List.map (fun hs -> M.hist_step md5 !hist_cfg hs o ob) !c07_cands in
     let good = List.filter (fun (_, l) -> spec_clean l) stepped in
     let tags = (match good with
